@@ -53,6 +53,8 @@ def fault_plans(n):
     for a, b in itertools.combinations(range(n), 2):
         plans.append({'fn': {str(a): 'user', str(b): 'value'}})
         plans.append({'src': {str(b): 'value'}, 'fn': {str(a): 'filter'}})
+    for j in range(n):
+        plans.append({'fn': {str(j): 'stop'}})
     if n >= 1:
         plans.append({'fn': {str(j): 'user' for j in range(n)}})
         plans.append({'src': {str(j): 'filter' for j in range(n)}})
